@@ -303,7 +303,16 @@ def small_resubmit_tasks(ctx, count):
         rg = None
         if i % 4 == 1:
             rg = [[dict(scn["groups"][0], size=(3 if size == 1 else 1 + i % 2), tryadd=(i % 8 == 1), procs=1 + i % 3)]]
-        tasks.append(("resubmit_scn", (scn, ctx.seed + i, [fs], rg)))
+        fss = [fs]
+        if i % 5 == 0:
+            # repeated resubmissions: the same submission resubmitted again with other flags (the first may select nothing --
+            # e.g. --failed --missing when everything succeeded --, the second must still find a submission it can act on)
+            fss = [fs, flagsets[(flagsets.index(fs) + 2) % 4]]
+        tasks.append(("resubmit_scn", (scn, ctx.seed + i, fss, rg)))
+    # a resubmission that selects nothing, then one that selects everything
+    for k, size in enumerate((1, 3)):
+        scn = families.scn("ABC", blk={"C": ["A"]}, groups=[families.G(size=size, tryadd=bool(k), procs=2)], maxnodes=0)
+        tasks.append(("resubmit_scn", (scn, ctx.seed + 900 + k, [["--failed", "--missing"], ["--successful"]], None)))
     return tasks
 
 
@@ -1600,7 +1609,8 @@ def check_C20(ctx):
     etasks = []
     for i, s in enumerate(seeds(ctx, 8 if q else 60, 92)):
         sc = families.scn("ABC", blk={"C": ["A"]} if i % 2 else {}, rc={"B": 1} if i % 3 == 0 else {},
-                          groups=[families.G(size=1 + i % 2, procs=2)], maxnodes=0, reports=True, monitor="periodic")
+                          groups=[families.G(size=1 + i % 2, procs=2)], maxnodes=0, reports=True, monitor="periodic",
+                          jobevents=True)      # the jobs log structured events of their own while they run
         etasks.append(("resubmit_scn", (sc, s, [["--successful"] if i % 2 else ["--failed", "--missing"]])))
     ctx.judge(run_tasks(etasks), "submissions with reports and periodic monitoring, resubmitted: consolidated events vs logs",
               clauses=mine)
